@@ -90,6 +90,21 @@ class SMap(Sym):
         return 'SMap(size=%s)' % (self.size,)
 
 
+class LazyDict(dict):
+    """`{}` in the interpreted program: a concrete dict until a symbolic key is stored into it while empty;
+    from then on it is the symbolic map `sym` (same Python object, so aliases see the change)."""
+    sym = None
+
+    def __hash__(self):
+        return id(self)
+
+
+def unmap(x):
+    if isinstance(x, LazyDict) and x.sym is not None:
+        return x.sym
+    return x
+
+
 class SObj(Sym):
     """Instance of a class from the extracted source; fields is a plain dict name -> value."""
 
